@@ -20,6 +20,22 @@ pub trait Context {
     fn set_special(&self, _name: String, _value: Expr) -> Option<Expr>;
 
     fn get_expr(&self, name: &String) -> Option<Expr> {
+        #[cfg(feature = "verif")]
+        crate::verif::lookup(name, || {
+            if self.get_define(name).is_some() {
+                1
+            } else if self.get_equ(name).is_some() {
+                2
+            } else if self.get_set(name).is_some() {
+                3
+            } else if self.get_special(name).is_some() {
+                4
+            } else if self.get_label(name).is_some() {
+                5
+            } else {
+                0
+            }
+        });
         if let Some(expr) = self.get_define(name) {
             Some(expr)
         } else if let Some(expr) = self.get_equ(name) {
@@ -96,6 +112,14 @@ impl Context for CommonContext {
     }
 
     fn get_def(&self, name: &String) -> Option<Reg8> {
+        #[cfg(feature = "verif")]
+        crate::verif::lookup(name, || {
+            if self.defs.borrow().contains_key(&name.to_lowercase()) {
+                6
+            } else {
+                0
+            }
+        });
         self.defs
             .borrow()
             .get(&name.to_lowercase())
